@@ -155,8 +155,10 @@ static void run_step(Json& js, vh::Rng& rng, long budget) {
         arr_real g;   // quantity that is smoothed by the one-pole: gain in dB (comp/lim) or linear gain (gate)
         if (which < 2) {
             const double T = -20;
+            // release toward either a quiet signal or digital silence (exact zeros)
+            const double quiet = rng.coin() ? 0.001 : 0.0;
             std::fill(lo.begin(), lo.end(), attack ? 0.001 : 1.0);    // -60 dB (no reduction) / 0 dB (20 dB over)
-            std::fill(hi.begin(), hi.end(), attack ? 1.0 : 0.001);
+            std::fill(hi.begin(), hi.end(), attack ? 1.0 : quiet);
             arr_real gg;
             if (which == 0) {
                 Compressor p(fs, T, 4, 0.0, attack ? tt : 0.0, attack ? 0.0 : tt);
